@@ -18,6 +18,16 @@ Proof.
   rewrite Hm in H. exact H.
 Qed.
 
+(* the self-supervised pipeline, same configuration space *)
+Lemma final_ok_ssl_all : forallb (fun x => implb (claimed x) (final_ok_ssl gen_ssl x)) (all_cfgs scalings) = true.
+Proof. vm_compute. reflexivity. Qed.
+
+Lemma final_ok_ssl_every x : In (c_scaling x) scalings -> claimed x = true -> final_ok_ssl gen_ssl x = true.
+Proof.
+  intros Hs Hm. pose proof final_ok_ssl_all as H. rewrite forallb_forall in H. specialize (H x (all_cfgs_complete scalings x Hs)).
+  rewrite Hm in H. exact H.
+Qed.
+
 Lemma pad_test_relative c a m eps : (0 < c)%Q -> (gen_pad_test (c * a) (c * m) eps <-> gen_pad_test a m eps).
 Proof.
   intros Hc. unfold gen_pad_test. setoid_replace (c * m * eps)%Q with (c * (m * eps))%Q by ring.
